@@ -10,10 +10,40 @@
  *                   result loops of find-all / replace-all / split, which are unwound).
  * Everything else of string.c is the real code (findsetup, replacesetup, kmp_seti, kmp_deinit, janet_string,
  * janet_string_begin/end). Trusted stubs: the capi.c getters (pattern / text views = separate readable blocks of ANY
- * length, integer slots = low 32 bits of the slot, each asserting slot < argc), janet_gcalloc (fresh block, asserts a sane
- * size), janet_text_substitution, the array and buffer primitives used for the results (contracts of units seq.array.* /
- * seq.buffer.*: they assert their preconditions - length >= 0, source readable), memcpy model of seq_common.h. */
-#include "seq_common.h"
+ * length, integer slots = low 32 bits of the slot, each asserting slot < argc; the pattern / text slot has type BUFFER iff
+ * that argument is mutable, and a slot that holds a string made by the real janet_stringv - the snapshots replacesetup
+ * stores into argv - yields the view of that string), janet_gcalloc (fresh block, asserts a sane size, the first blocks
+ * are tracked), janet_text_substitution (with STR_SUBST_MAY_RESIZE: a function as subst may free the ORIGINAL block of a
+ * mutable text / pattern, never a snapshot string), the array and buffer primitives used for the results (contracts of units seq.array.* /
+ * seq.buffer.*: they assert their preconditions - length >= 0, source readable), memcpy model below. */
+#include "prelude.h"
+#include <stdlib.h>
+#define SEQ_NULL ((void *)0)
+#define NIL_BITS 0xFFF8800000000001ULL
+#define SEQ_CHECK_NIL() __CPROVER_assert(janet_wrap_nil().u64 == NIL_BITS, "nil bit pattern used in the contracts")
+
+/* memcpy model (assumed, same pointwise model as seq_common.h, bytes): the call site must show both ranges valid for n
+ * bytes and disjoint (counted obligations); n == 0 is a no-op. Effect: the byte at the ghost offset g_mm is copied, one
+ * other arbitrary byte of the destination range becomes arbitrary. After each range obligation has been ASSERTED it is
+ * assumed for the model's own accesses (assert-then-assume of the same fact; without it the solver re-proves the range
+ * for the model's two writes, 90 s per call site). */
+size_t g_mm;
+void *memcpy(void *d, const void *s, size_t n) {
+  __CPROVER_assert(n == 0 || __CPROVER_r_ok(s, n), "memcpy model: source range readable");
+  __CPROVER_assert(n == 0 || __CPROVER_w_ok(d, n), "memcpy model: destination range writable");
+  __CPROVER_assert(n == 0 || !__CPROVER_same_object(d, s) ||
+                   __CPROVER_POINTER_OFFSET(d) + n <= __CPROVER_POINTER_OFFSET(s) ||
+                   __CPROVER_POINTER_OFFSET(s) + n <= __CPROVER_POINTER_OFFSET(d), "memcpy model: ranges do not overlap");
+  if (n > 0) {
+    __CPROVER_assume(__CPROVER_r_ok(s, n) && __CPROVER_w_ok(d, n));
+    uint8_t v, w;            /* w: arbitrary */
+    size_t j = nd_size();
+    if (g_mm < n) v = ((const uint8_t *)s)[g_mm];
+    if (j < n) ((uint8_t *)d)[j] = w;
+    if (g_mm < n) ((uint8_t *)d)[g_mm] = v;
+  }
+  return d;
+}
 
 #ifndef STR_MAXHITS
 #define STR_MAXHITS 2
@@ -21,8 +51,13 @@
 int32_t g_argc;
 JanetByteView g_pat, g_text, g_sub;
 int32_t g_pat_slot, g_text_slot;
-int g_text_mutable;          /* the text argument is a buffer (its block can be reallocated by Janet code) */
-uint8_t *g_text_block;
+int g_text_mutable, g_pat_mutable;   /* the text / pattern argument is a buffer (its block can be reallocated by Janet code) */
+uint8_t *g_text_block, *g_pat_block; /* the ORIGINAL blocks of the arguments */
+int g_text_freed, g_pat_freed;       /* ... already reallocated by a callback */
+JanetByteView g_pat0, g_text0;       /* the original views (g_pat / g_text: the views the slots yield NOW) */
+#define STR_TRACKED 4
+void *g_alloc[STR_TRACKED];          /* the first blocks handed out by janet_gcalloc (snapshot strings come first) */
+int g_nalloc;
 int g_hits;                  /* number of hits reported by kmp_next so far */
 int32_t g_hit[STR_MAXHITS + 1];   /* their positions */
 int32_t g_prev_end;          /* resume point at the last kmp_next call */
@@ -35,16 +70,37 @@ size_t g_last_alloc_size;
 void janet_fixarity(int32_t argc, int32_t fix) { __CPROVER_assume(argc == fix); }
 void janet_arity(int32_t argc, int32_t min, int32_t max) { __CPROVER_assume(argc >= min && (max < 0 || argc <= max)); }
 int32_t janet_getinteger(const Janet *argv, int32_t n) { SLOT_OK(n); return SLOT_INT(argv, n); }
+/* janet_getbytes: the slot's own content decides. A slot holding a string created by the real janet_string (one of the
+ * tracked janet_gcalloc blocks) yields that string - an immutable snapshot with the length and (pointwise, ghost byte
+ * g_mm) the content of the argument it was taken from; otherwise the slot still holds the original argument. The view
+ * returned last is the CURRENT view of that argument (g_pat / g_text). */
 JanetByteView janet_getbytes(const Janet *argv, int32_t n) {
   SLOT_OK(n);
   __CPROVER_assert(n == g_pat_slot || n == g_text_slot, "byte view requested for the pattern or the text slot");
-  return n == g_pat_slot ? g_pat : g_text;
+  JanetByteView orig = n == g_pat_slot ? g_pat0 : g_text0;
+  JanetByteView v = orig;
+  int snap = 0;
+#define TRY_TRACKED(k) \
+  if ((k) < g_nalloc && argv[n].u64 == janet_wrap_string(((JanetStringHead *)g_alloc[k])->data).u64) { \
+    JanetStringHead *h = (JanetStringHead *)g_alloc[k]; \
+    v.bytes = h->data; v.len = h->length; snap = 1; \
+  }
+  TRY_TRACKED(0) TRY_TRACKED(1) TRY_TRACKED(2) TRY_TRACKED(3)
+#undef TRY_TRACKED
+  if (snap) {
+    __CPROVER_assert(v.len == orig.len, "C17: the snapshot stored in the argument slot has the length of the argument");
+    if (g_mm < (size_t)v.len && !(n == g_pat_slot ? g_pat_freed : g_text_freed))
+      __CPROVER_assert(v.bytes[g_mm] == orig.bytes[g_mm], "C17: the snapshot stored in the argument slot has the content of the argument");
+  }
+  if (n == g_pat_slot) g_pat = v; else g_text = v;
+  return v;
 }
 void *janet_gcalloc(enum JanetMemoryType type, size_t size) {
   __CPROVER_assert(size <= sizeof(JanetStringHead) + (size_t)INT32_MAX + 1, "allocation size is that of a string of non-negative int32 length");
   void *p = malloc(size);
   __CPROVER_assume(p != SEQ_NULL);
   g_last_alloc = p; g_last_alloc_size = size;
+  if (g_nalloc < STR_TRACKED) g_alloc[g_nalloc++] = p;
   return p;
 }
 
@@ -63,7 +119,9 @@ int32_t kmp_next_stub(struct kmp_state *state) {
   __CPROVER_assert(g_init_calls == 1, "kmp_next precondition: state initialised by kmp_init");
   __CPROVER_assert(state->i >= 0 && state->j >= 0 && state->j < state->patlen && state->j <= state->i, "kmp_next precondition: 0 <= j < patlen, j <= i");
   __CPROVER_assert(state->textlen == g_text.len && state->patlen == g_pat.len && state->text == g_text.bytes && state->pat == g_pat.bytes,
-                   "kmp_next precondition: text and pattern of the state are the arguments");
+                   "kmp_next precondition: text and pattern of the state are the current views of the arguments");
+  __CPROVER_assert((state->textlen == 0 || __CPROVER_r_ok(state->text, (size_t)state->textlen)) && __CPROVER_r_ok(state->pat, (size_t)state->patlen),
+                   "kmp_next precondition: text and pattern of the state are live and readable for their lengths");
   g_prev_end = state->i - state->j;
   if (g_hits >= STR_MAXHITS || nd_int()) return -1;
   int32_t r = nd_i32();
@@ -128,8 +186,12 @@ JanetByteView janet_text_substitution(Janet *subst, const uint8_t *bytes, uint32
   __CPROVER_assert(extra_argv == SEQ_NULL, "janet_text_substitution: no extra arguments");
   g_subst_calls++;
 #ifdef STR_SUBST_MAY_RESIZE
-  if (g_text_mutable && (janet_checktype(*subst, JANET_FUNCTION) || janet_checktype(*subst, JANET_CFUNCTION)) && nd_int())
-    free(g_text_block);                 /* e.g. (buffer/push text ...) inside the callback: realloc moves the block */
+  if (janet_checktype(*subst, JANET_FUNCTION) || janet_checktype(*subst, JANET_CFUNCTION)) {
+    /* e.g. (buffer/push text ...) inside the callback: realloc moves the ORIGINAL block of a buffer argument. Strings
+     * (the snapshots included) are immutable and stay reachable through the argument slots: never freed here. */
+    if (g_text_mutable && !g_text_freed && nd_int()) { free(g_text_block); g_text_freed = 1; }
+    if (g_pat_mutable && !g_pat_freed && nd_int()) { free(g_pat_block); g_pat_freed = 1; }
+  }
 #endif
   return g_sub;
 }
@@ -147,8 +209,13 @@ static Janet *mk_args(int32_t pat_slot, int32_t text_slot) {
   g_pat_slot = pat_slot; g_text_slot = text_slot;
   g_pat.len = nd_i32(); g_text.len = nd_i32(); g_sub.len = nd_i32();
   __CPROVER_assume(g_pat.len >= 0 && g_text.len >= 0 && g_sub.len >= 0);
-  g_pat.bytes = mk_block(g_pat.len); g_text_block = mk_block(g_text.len); g_text.bytes = g_text_block; g_sub.bytes = mk_block(g_sub.len);
-  g_text_mutable = nd_int();
+  g_pat_block = mk_block(g_pat.len); g_pat.bytes = g_pat_block; g_text_block = mk_block(g_text.len); g_text.bytes = g_text_block; g_sub.bytes = mk_block(g_sub.len);
+  g_pat0 = g_pat; g_text0 = g_text;
+  g_text_mutable = nd_int() ? 1 : 0; g_pat_mutable = nd_int() ? 1 : 0;
+  g_text_freed = 0; g_pat_freed = 0; g_nalloc = 0;
+  /* the slot types agree with the arguments: BUFFER iff mutable (string, symbol or keyword otherwise) */
+  if (g_argc > pat_slot) __CPROVER_assume((janet_checktype(argv[pat_slot], JANET_BUFFER) != 0) == g_pat_mutable);
+  if (g_argc > text_slot) __CPROVER_assume((janet_checktype(argv[text_slot], JANET_BUFFER) != 0) == g_text_mutable);
   g_hits = 0; g_pushes = 0; g_init_calls = 0; g_subst_calls = 0; g_array = SEQ_NULL; g_rbuf = SEQ_NULL; g_last_alloc = SEQ_NULL;
   g_mm = nd_size();
   return argv;
@@ -189,14 +256,15 @@ void h_cfun_string_findall(void) {
 void h_cfun_string_replace(void) {
   Janet *argv = mk_args(0, 2);
 #ifndef STR_REPLACE_ANY_LENGTH
-  /* domain restriction: the result length fits int32. The real code computes it in int32 without a check: unit
-   * str.cfun.string.replace.overflow keeps the failing obligations (genuine defect, heap overflow, see final report) */
+  /* restricted domain: the result length fits int32 (unit str.cfun.string.replace.overflow covers ALL lengths: since
+   * /repo 7374d1c the real code raises instead of computing the length in int32) */
   __CPROVER_assume((int64_t)g_text.len - g_pat.len + g_sub.len <= INT32_MAX);
 #endif
   Janet r = cfun_string_replace(g_argc, argv);
   REACH("string/replace returns");
   __CPROVER_assert(g_argc >= 3 && g_argc <= 4 && g_pat.len > 0 && START(argv, 3) >= 0, "C17: string/replace returns only for arity 3..4, a non-empty pattern and a non-negative start");
   __CPROVER_assert(r.u64 == janet_wrap_string(LAST_STRING->data).u64, "C17: string/replace returns a new string");
+  __CPROVER_assert((int64_t)g_text.len - g_pat.len + g_sub.len <= INT32_MAX || g_hits == 0, "C17: string/replace raises instead of returning a string longer than INT32_MAX");
   const uint8_t *out = LAST_STRING->data;
   if (g_hits == 0) {
     __CPROVER_assert(LAST_STRING->length == g_text.len && g_subst_calls == 0, "C17: string/replace without occurrence returns a copy of str and does not call subst");
@@ -208,6 +276,9 @@ void h_cfun_string_replace(void) {
     if (g_mm < (size_t)g_sub.len) __CPROVER_assert(out[at + g_mm] == g_sub.bytes[g_mm], "C17: string/replace puts subst at the occurrence");
     if (g_mm < (size_t)(g_text.len - at - g_pat.len)) __CPROVER_assert(out[(size_t)at + g_sub.len + g_mm] == g_text.bytes[(size_t)at + g_pat.len + g_mm], "C17: string/replace keeps the bytes behind the occurrence");
     REACH("string/replace returns after replacing");
+#ifdef STR_SUBST_MAY_RESIZE
+    if (g_text_freed) REACH("string/replace returns after the callback reallocated the text buffer");
+#endif
   }
 }
 
@@ -222,6 +293,9 @@ void h_cfun_string_replaceall(void) {
   if (g_hits == 2) {
     __CPROVER_assert(g_hit[1] >= g_hit[0] + g_pat.len, "C17: string/replace-all replaces non-overlapping occurrences");
     REACH("string/replace-all returns after two replacements");
+#ifdef STR_SUBST_MAY_RESIZE
+    if (g_text_freed && g_pat_freed) REACH("string/replace-all returns after the callbacks reallocated the text and the pattern buffer");
+#endif
   }
 }
 
